@@ -66,6 +66,13 @@ CHECKS["C02"] = dict(
     engine="gev",
 )
 
+CHECKS["C14"] = dict(
+    technique="round-trip monitor: print -> parse -> print fixpoint and diagnostics, plus behavioural equivalence of original and reprinted templates on the real runtime (creation + update history)",
+    text="Generated templates (full spelling variation) are printed by the SUT plain and with mangling; the printed text is parsed again: it must produce no diagnostic above Note, print to the same text, and its generated code must give the same snapshots as the original on two data environments through creation and two update steps. Three recorded findings (pinned by the repository's own tests) are matched by bug-compatible normalisation; anything else is a violation.",
+    note="Trusted: the snapshot comparison; the generator. The mangled variant of templates that contain wx:for is only judged for the print fixpoint (recorded finding mangled-for-scopes-undeclared).",
+    ref="2/C14",
+)
+
 NOT_YET = {}
 
 
